@@ -33,7 +33,9 @@ def constants(ctx):
 def common_helpers(lib):
     """by role: the free functions whose bodies index COMMON_INPUTS resp. COMMON_INPUTS_INV"""
     def uses(f, item):
-        return any(item in str(st['rv']) for b in f.normal_blocks() for st in b['stmts'] if st['k'] == 'assign')
+        return any(item in str(st['rv']) for b in f.normal_blocks() for st in b['stmts'] if st['k'] == 'assign') or \
+            any(item in str(t.get('args')) for _, t in f.calls()) or \
+            any(item in str(pr) for pr in (getattr(f, 'promoted', None) or {}).values())
     enc = [f for f in lib.fn_list if uses(f, "raw::common_inputs::COMMON_INPUTS'") or uses(f, 'raw::common_inputs::COMMON_INPUTS"')]
     dec = [f for f in lib.fn_list if uses(f, 'raw::common_inputs::COMMON_INPUTS_INV')]
     enc = [f for f in enc if f not in dec]
@@ -103,6 +105,20 @@ def common_input_helpers(ctx, R):
                 v = rv[2][0][1]
                 ok = v[0] == 'index' and v[1] == ('citem', 'raw::common_inputs::COMMON_INPUTS_INV') and any(x[0] == 'bin' and x[1] == 'Sub' and x[2][0] == 'param' and x[3] == ('const', 1) for x in walk(v[2]))
             good['nonzero'] = ok
+    if not good:
+        # COMMON_INPUTS_INV.get((idx as usize).wrapping_sub(1)).copied(): 0 wraps to usize::MAX, which no table has - None; i > 0 reads
+        # entry i - 1.  The widening must come BEFORE the wrapping subtraction (on u8, 0 would wrap to 255, a valid position)
+        for p in explore(dec, max_visits=1):
+            if p.end != 'return':
+                continue
+            rv = p.ret()
+            while is_call(rv, '::copied') or is_call(rv, '::cloned'):
+                rv = rv[2][0]
+            if is_call(rv, '::get') and len(rv[2]) == 2 and any(x == ('citem', 'raw::common_inputs::COMMON_INPUTS_INV') for x in walk(rv[2][0])):
+                ix = rv[2][1]
+                okw = is_call(ix, 'wrapping_sub') and 'usize' in ix[1] and len(ix[2]) == 2 and ix[2][1] == ('const', 1) and any(x[0] == 'param' for x in walk(ix[2][0])) and \
+                    not any(x[0] == 'bin' for x in walk(ix[2][0]))
+                good['zero'] = good['nonzero'] = bool(okw)
     ctx.check(R, good.get('zero') and good.get('nonzero'), 'common-input', 'index 0 must mean "explicit byte follows" and index i > 0 the byte COMMON_INPUTS_INV[i - 1] (%s)' % good, fn=dec)
 
 
@@ -760,7 +776,9 @@ def packing(ctx):
                         P = args[1]
                         okP = is_call(P, '::index') and P[2][0][0] == 'param' and P[2][1][0] == 'agg' and P[2][1][1].endswith('ops::RangeTo') and any(x[0] == 'param' for x in walk(dict(P[2][1][2])['end']))
                         D = args[0]
-                        okD = is_call(D, '::index_mut') and D[2][1][0] == 'agg' and D[2][1][1].endswith('ops::RangeTo') and is_call(dict(D[2][1][2])['end'], '::len') and norm(dict(D[2][1][2])['end'][2][0]) == norm(P) and \
+                        okD = is_call(D, '::index_mut') and D[2][1][0] == 'agg' and D[2][1][1].endswith('ops::RangeTo') and \
+                            ((is_call(dict(D[2][1][2])['end'], '::len') and norm(dict(D[2][1][2])['end'][2][0]) == norm(P)) or
+                             (okP and norm(dict(D[2][1][2])['end']) == norm(dict(P[2][1][2])['end']))) and \
                             any(x[0] == 'repeat' and x[1] == ('const', 0) for x in walk(D[2][0]))
                         if okP and okD and zero8:
                             step = le_form = True
